@@ -6,6 +6,7 @@ import c02
 
 CONFIGS = ['prod']
 EXPLANATION = (
+    'W8: the membership record is a plain carrier — ClusterMember::new stores id, address and data centre exactly as given (the selector filters the local node by comparing addresses, the consumers key their peers by id). '
     'SEM, API level (abstract interpretation of the MIR, no code runs): each of put / put_many / del / del_many of the replicated store is interpreted end to end with node '
     'selection, the node clock, the local keyspace actor, the distributor queue and the RPC wire as modelled effects, for seven scenarios (selection refused; no replica selected; '
     'local write fails; the two selected replicas answer ok/ok, err/ok, ok/err, err/err): nothing is written or sent when selection is refused, nothing is queued or sent when the '
@@ -284,6 +285,8 @@ def check_W5(ctx, facts):
 
 def check(ctx):
     facts = ctx.facts('prod')
+    import carrier_abs
+    carrier_abs.check_member_constructor(ctx, facts, 'C06.W8')
     # SEM (API level): the four public write paths interpreted end to end against every outcome of node selection, of the local
     # write and of the two selected replicas (api_abs); subsumes W1, W3 and W5, which are evaluated only when a construct is not modelled
     import api_abs
